@@ -75,6 +75,11 @@ def classify(scn, line):
             return "probe:ended-session-still-listed" + ("-after-disconnect" if disc else "")
         if {s["s"] for s in e.get("subs", [])} & ended:
             return "probe:subscription-of-ended-session-listed"
+        clients = {}
+        for s_ in e.get("sessions", []):
+            clients.setdefault((s_["client"], s_["mount"]), set()).add(s_["s"])
+        if any(len(v) > 1 for v in clients.values()):
+            return "probe:client-id-resolves-to-two-sessions"
         return "probe:listing-differs"
     if op == "quiescent":
         pend = [x for x in scn[:line - 1] if x["op"] == "shutdown.done"]
